@@ -86,17 +86,20 @@ class TableSub(dict):
     """A caller's own dict subclass (config objects often are)."""
 
 
-def as_caller_dict(t, rng):
+def as_caller_dict(t, rng, p_plain=0.8):
     """The table in one of the dict types callers hold it in; all are dicts, so all are valid arguments."""
-    x = rng.random()
-    if x < 0.8:
+    import collections
+    if rng.random() < p_plain:
         return dict(t)
-    if x < 0.88:
-        import collections
+    x = rng.random()
+    if x < 0.35:
         return collections.OrderedDict(t)
-    if x < 0.94:
-        import collections
+    if x < 0.6:
         return collections.defaultdict(int, t)
+    if x < 0.8:
+        c = collections.Counter()
+        c.update(t) if all(isinstance(v, int) for v in t.values()) else dict.update(c, t)
+        return c
     return TableSub(t)
 
 
@@ -127,6 +130,8 @@ def set_table_hostile(sf, t, rng, ctx=None):
     if rng.random() < 0.15:
         # a rejected update right after the accepted one (valid, different entries first, then one bad entry)
         bad, _ = invalid_update(rng, current=sf.get_semantic_constraints())
+        if type(bad) is dict:
+            bad = as_caller_dict(bad, rng, p_plain=0.6)
         try:
             sf.set_semantic_constraints(bad)
         except Exception:       # noqa - which exception, and atomicity, are C12's business; here it must simply not matter
